@@ -234,6 +234,31 @@ def cmp_guard(op, l: Rat, r: Rat) -> G:
     raise CannotDecide(f'comparison operator {type(op).__name__}')
 
 
+CLASS_MODEL = None     # set by SX.__init__: the source model, for class-disjointness reasoning on isinstance guards
+
+
+def isinstance_feasible(guards) -> bool:
+    """is there a concrete class of the package satisfying all isinstance guards about each object?"""
+    m = CLASS_MODEL
+    if m is None:
+        return True
+    by_obj = {}
+    for g in guards:
+        if g.kind == 'isinstance' and isinstance(g.key[1], tuple) and g.key[1] and all(c in m.classes for c in g.key[1]):
+            by_obj.setdefault(g.key[0], []).append(g)
+    for obj, gs in by_obj.items():
+        if len(gs) < 2 and all(g.pol for g in gs):
+            continue
+        ok = False
+        for c in m.classes:
+            if all((any(m.is_subclass(c, k) for k in g.key[1])) == g.pol for g in gs):
+                ok = True
+                break
+        if not ok:
+            return False
+    return True
+
+
 _SIGNS = {'<': {'-'}, '<=': {'-', '0'}, '==': {'0'}, '!=': {'-', '+'}}
 _FLIP = {'-': '+', '+': '-', '0': '0'}
 
@@ -312,6 +337,8 @@ class State:
                     return self
                 if h.opposite(g):
                     return None
+            if g.kind == 'isinstance' and not isinstance_feasible(self.guards + (g,)):
+                return None
         s = self.copy()
         s.guards = self.guards + (g,)
         return s
@@ -381,14 +408,19 @@ class SX:
     """the evaluator.  One instance per comparison universe (shares the algebra Ctx)."""
 
     def __init__(self, model: Model, tables: UnitTables = None, ctx: Ctx = None):
+        global CLASS_MODEL
+        CLASS_MODEL = model
         self.model = model
         self.tables = tables or UnitTables(model)
         self.ctx = ctx or Ctx()
         self.opaque_calls = set()          # names of functions / methods never inlined
         self.inline_ctor_guards = False    # inline quantity constructors' own raise-guards
+        self.model_setters = False         # stores to objects of inexact class run the possible setters for their raises
+        self.track_div_zero = False        # record divisions by a possibly-zero number
         self.loop_handler = None           # callable(sx, for_node, state, frame) -> list[State] | None
         self.call_hook = None              # callable(sx, call_node, func_value, args, kwargs, state, frame) -> list[(State,V)] | None
         self.nstates = 0
+        self.div_zero_sites = []
         self._field_types = {}
         self.trace_calls = []
 
@@ -708,11 +740,46 @@ class SX:
             s.effects = s.effects + (('store', obj.path, mangled, value, lineno, frame['fn'].name),)
             return [Outcome(s, 'fall')]
         if isinstance(obj, Ov):
+            res = []
+            if self.model_setters:
+                res.extend(self.setter_raises(obj, attr, value, st, frame, lineno))
             s = st.copy()
             s.heap[(obj.path, attr)] = value
             s.effects = s.effects + (('store', obj.path, attr, value, lineno, frame['fn'].name),)
-            return [Outcome(s, 'fall')]
+            res.append(Outcome(s, 'fall'))
+            return res
         raise CannotDecide(f'store to attribute {attr} of {obj!r}')
+
+    def setter_raises(self, obj: Ov, attr, value, st, frame, lineno):
+        """raise outcomes of the setters `attr` of every concrete class the object may have, evaluated on
+        the actual argument under the current path guards (an obligation discharged by an earlier guard
+        becomes infeasible and disappears)"""
+        classes = [c for c in self.model.classes if not self.model.is_abstract_class(c)
+                   and (obj.cls is None or self.model.is_subclass(c, obj.cls))
+                   and self.model.find_setter(c, attr) is not None]
+        seen = set()
+        out = []
+        for c in classes:
+            setter = self.model.find_setter(c, attr)
+            # follow the forwarding idiom to the defining setter so that clones are evaluated once
+            probe = Ov(f'{obj.path}', c, True)
+            pname = setter.node.args.args[1].arg
+            try:
+                outs = self.run(setter.node, setter.module, setter.cls, probe, {pname: value}, st, frame['depth'] + 1)
+            except CannotDecide:
+                continue
+            for o in outs:
+                if o.kind != 'raise':
+                    continue
+                key = (o.value, tuple(g.show() for g in o.state.guards[len(st.guards):]))
+                if key in seen:
+                    continue
+                seen.add(key)
+                s2 = o.state.copy()
+                s2.heap = dict(st.heap)
+                s2.effects = st.effects + (('setter-raise', obj.path, attr, o.value, lineno, c),)
+                out.append(Outcome(s2, 'raise', o.value, lineno))
+        return out
 
     # ---- conditions
     def branch(self, test, st: State, frame):
@@ -743,6 +810,10 @@ class SX:
             tr, fa, rs = self.branch(test.operand, st, frame)
             return fa, tr, rs
         tr, fa, rs = [], [], []
+        narrow = None
+        if isinstance(test, ast.Call) and isinstance(test.func, ast.Name) and test.func.id == 'isinstance' \
+                and len(test.args) == 2 and isinstance(test.args[0], ast.Name):
+            narrow = (test.args[0].id, self.class_names(test.args[1], None))
         for r in self.eval_x(test, st, frame):
             if isinstance(r, Outcome):
                 rs.append(r)
@@ -757,10 +828,35 @@ class SX:
                 a = s.with_guard(t)
                 b = s.with_guard(t.negate())
                 if a is not None:
+                    if narrow and narrow[1]:
+                        a = self.narrow(a, narrow[0], narrow[1])
                     tr.append(a)
                 if b is not None:
                     fa.append(b)
         return tr, fa, rs
+
+    def narrow(self, st: State, name, classes):
+        """refine the abstract value of local `name` after `isinstance(name, classes)` held"""
+        v = st.env.get(name)
+        new = None
+        if isinstance(v, Ov) and not v.exact and all(c in self.model.classes for c in classes):
+            if len(classes) == 1:
+                target = classes[0]
+            else:
+                common = [c for c in self.model.mro(classes[0]) if all(c in self.model.mro(k) for k in classes)]
+                target = common[0] if common else None
+            if target and (v.cls is None or self.model.is_subclass(target, v.cls)):
+                new = Ov(v.path, target, False)
+        elif isinstance(v, Dyn) and set(classes) <= {'float', 'int'}:
+            new = N(v.term, classes[0] if len(classes) == 1 else None)
+        elif isinstance(v, Dyn) and len(classes) == 1 and self.model.is_quantity(classes[0]):
+            sym = self.none_name(v)
+            new = Q(classes[0], v.term, U(sym=sym) if sym else None)
+        if new is None:
+            return st
+        s = st.copy()
+        s.env[name] = new
+        return s
 
     def truth(self, v: V):
         """True | False | G"""
@@ -1073,6 +1169,11 @@ class SX:
             raise CannotDecide(f'operands of {ast.unparse(node)[:60]}')
         if isinstance(l, N) and isinstance(r, N):
             py = 'float' if (opc == '/' or 'float' in (l.py, r.py)) else ('int' if l.py == r.py == 'int' else None)
+            if opc == '/' and self.track_div_zero and not r.term.is_const():
+                g = make_cmp('==', r.term)
+                if static_truth(g) is not False and not implies(st.guards, g.negate()):
+                    self.div_zero_sites.append((node.lineno, self.ctx.show(r.term)[:80], len(st.effects)))
+                    st.effects = st.effects + (('may-div-zero', self.ctx.show(r.term)[:80], node.lineno),)
             return N(self.ctx.reduce(f(l.term, r.term)), py)
         if isinstance(l, Q) and isinstance(r, N):
             if opc in '*/':
